@@ -38,6 +38,7 @@ MULTI7 = (
     ("sel", spaces.P_FALSE),
     ("dedup",),
     ("slice", 1, 3),
+    ("slice", 0, 0),
     S((R("c"), True), (R("a"), True), (R("b"), True)),
     ("chain", ("self",)),
     ("chain", ("E",)),
@@ -104,11 +105,11 @@ class C07(Check):
         mw = spaces.multi_world()
         if tier == "quick":
             return [
-                SubSpace("multi/p7/d3", mw, ("X", "L", "EL", "EL1"), MULTI7, 3),
+                SubSpace("multi/p7/d3", mw, ("X", "L", "EL", "EL1", "E", "E1"), MULTI7, 3),
                 SubSpace("multi/p7-small/d4", mw, ("X", "L"), MULTI7_SMALL, 4),
             ]
         return [
-            SubSpace("multi/p7/d4", mw, ("X", "L", "EL", "EL1"), MULTI7, 4),
+            SubSpace("multi/p7/d4", mw, ("X", "L", "EL", "EL1", "E", "E1"), MULTI7, 4),
             SubSpace("multi/p7-small/d5", mw, ("X", "L"), MULTI7_SMALL, 5),
         ]
 
@@ -174,6 +175,7 @@ class C07(Check):
             if out.columns != rel.columns or out.engine != rel.engine:
                 tr.violation("result-columns-or-engine", f"processed tree has columns {set(out.columns)} / engine {out.engine}, input {set(rel.columns)} / {rel.engine}")
                 return True
+            tr.aux["processed"] = out
             try:
                 got = ctx.rows_of(out)
             except Exception as e:  # noqa: BLE001
